@@ -103,7 +103,7 @@ Proof.
   - intros Q P t0 dq dp HQ HP. unfold ma, mb, mc, md, skick; cbn [fst snd]. split.
     + replace (1 * dq + 0 * dp) with dq by ring. exact HQ.
     + replace (- c * g' (Q t0) * dq + 1 * dp) with (minus dp (scal c (scal dq (g' (Q t0)))))
-        by (unfold minus, plus, opp, scal; simpl; unfold mult; simpl; ring).
+        by (unfold Hierarchy.minus, Hierarchy.plus, Hierarchy.opp, Hierarchy.scal; simpl; unfold Hierarchy.mult; simpl; ring).
       apply (is_derive_minus (V := R_NormedModule)); [exact HP|].
       apply (is_derive_scal (fun t => g (Q t))).
       apply (is_derive_comp g Q); [apply Hg | exact HQ].
@@ -115,7 +115,7 @@ Proof.
   exists (fun x => (1, c * mi, 0, 1)). split.
   - intros Q P t0 dq dp HQ HP. unfold ma, mb, mc, md, sdrift; cbn [fst snd]. split.
     + replace (1 * dq + c * mi * dp) with (plus dq (scal c (scal mi dp)))
-        by (unfold plus, scal; simpl; unfold mult; simpl; ring).
+        by (unfold Hierarchy.plus, Hierarchy.scal; simpl; unfold Hierarchy.mult; simpl; ring).
       apply (is_derive_plus (V := R_NormedModule)); [exact HQ|].
       apply (is_derive_scal (fun t => mi * P t)).
       apply (is_derive_scal P). exact HP.
@@ -174,7 +174,7 @@ Proof.
   (* partial derivatives in p: the curve t -> (q, t) at t = p *)
   destruct (HJ (fun _ => q) (fun t => t) p 0 1 (is_derive_const q p) (is_derive_id p)) as [B D].
   cbn beta in A, B, C, D.
-  repeat split.
+  split; [|split; [|split; [|split]]].
   - eapply is_derive_ext; [intros t; symmetry; apply EFq|].
     replace (ma (J (q, p))) with (ma (J (q, p)) * 1 + mb (J (q, p)) * 0) by ring. exact A.
   - eapply is_derive_ext; [intros t; symmetry; apply EFq|].
